@@ -135,6 +135,15 @@ func (p *Proc) Fork(path string, main func(c *Proc), onTerm func(c *Proc)) *Proc
 	return c
 }
 
+// Detached creates a process the supervisor knows nothing about (e.g. a double-forked child of an
+// earlier generation, or any other local client of the Runtime API): nobody ever signals it.
+func (k *Kernel) Detached(path string) *Proc {
+	k.nextPid++
+	p := &Proc{Pid: k.nextPid, Pgid: k.nextPid, Path: path, Alive: true, k: k}
+	k.Procs[p.Pid] = p
+	return p
+}
+
 // Signal delivers sig to one process.
 func (k *Kernel) signalOne(p *Proc, sig int) {
 	if !p.Alive {
